@@ -446,7 +446,10 @@ class SqwModel(Model):
                 return NdArr.whole(r, shape_of(r), r.dtype if r.dtype in absio.CODES else 'float64')
         if v.kind == 'raw' and attr in ('astype', 'squeeze', 'item', 'tobytes', 'tofile', 'reshape', 'copy', 'tolist') and sh is not None:
             return getattr(NdArr.whole(v, sh), attr)
-        return super().var_attr(interp, v, attr, node)
+        r = super().var_attr(interp, v, attr, node)
+        if attr in ('data', 'T') and isinstance(r, SVar) and sh is not None:
+            set_shape(r, sh, v.members.get('dims'))
+        return r
 
     def var_index(self, interp, v, key, node):
         sh = shape_of(v)
